@@ -43,10 +43,10 @@ PLAN["C16"] = dict(
         dict(test="TestC16ParseRapid", checks=20000, shards=2, counts=["C16.parse"]),
     ],
     thorough=[
-        dict(kind="enum", test="TestC16Enum", solo=True, timeout=1200),
-        dict(test="TestC16HdrRapid", checks=300000, shards=5, counts=["C16.hdr"]),
-        dict(test="TestC16MthRapid", checks=300000, shards=5, counts=["C16.mth"]),
-        dict(test="TestC16ParseRapid", checks=300000, shards=5, counts=["C16.parse"]),
+        dict(kind="enum", test="TestC16Enum", solo=True, timeout=3000, env={"VERIF_C16_MAXLEN": 4}),
+        dict(test="TestC16HdrRapid", checks=3000000, shards=5, counts=["C16.hdr"]),
+        dict(test="TestC16MthRapid", checks=3000000, shards=5, counts=["C16.mth"]),
+        dict(test="TestC16ParseRapid", checks=3000000, shards=5, counts=["C16.parse"]),
     ],
 )
 
@@ -361,8 +361,8 @@ PLAN["C17"] = dict(
         dict(test="TestC17ViaRapid", checks=30000, shards=4, counts=["C17.viabr"]),
     ],
     thorough=[
-        dict(test="TestC17Rapid", checks=300000, shards=12, counts=["C17.list"], timeout=5400),
-        dict(test="TestC17ViaRapid", checks=300000, shards=4, counts=["C17.viabr"], timeout=5400),
+        dict(test="TestC17Rapid", checks=3000000, shards=12, counts=["C17.list"], timeout=5400),
+        dict(test="TestC17ViaRapid", checks=3000000, shards=4, counts=["C17.viabr"], timeout=5400),
     ],
 )
 
@@ -401,7 +401,7 @@ PLAN["C15"] = dict(
     level_note=_MODEL_NOTE + " Nothing is asserted about a parameter other than user/ttl/method/maddr present on one side only.",
     rule=("case = (URI spec a, URI spec b, relation); non-trivial = both parse and carry >= 1 parameter or header; distinct by case hash"),
     quick=[dict(test="TestC15Rapid", checks=10000, shards=12, counts=["C15.cmp"])],
-    thorough=[dict(test="TestC15Rapid", checks=100000, shards=16, counts=["C15.cmp"], timeout=5400)],
+    thorough=[dict(test="TestC15Rapid", checks=300000, shards=16, counts=["C15.cmp"], timeout=5400)],
 )
 
 PLAN["C18"] = dict(
@@ -438,7 +438,7 @@ PLAN["C19"] = dict(
     rule=("case = (method, base header list, variant header lists, schedule, capacity); non-trivial = >= 3 fingerprinted "
           "headers and >= 1 variant; distinct by case hash"),
     quick=[dict(test="TestC19Rapid", checks=6000, shards=12, counts=["C19.sig"])],
-    thorough=[dict(test="TestC19Rapid", checks=60000, shards=16, counts=["C19.sig"], timeout=5400)],
+    thorough=[dict(test="TestC19Rapid", checks=500000, shards=16, counts=["C19.sig"], timeout=5400)],
 )
 
 PLAN["C20"] = dict(
